@@ -62,6 +62,34 @@ func makeBoxes(tier string) []*Box {
 	add(&Box{ID: "B3", Mode: "B", What: "log compaction at the applied index and snapshot transfer to lagging / restarted followers",
 		Cfg: all3, Bud: Budget{MaxTerm: 3, Proposals: 1, Drops: 9, Dups: 9, Crashes: 1, Compacts: 1},
 		Depth: 400, MaxDev: pick(1, 2), Kinds: kinds(evCampaign, evPropose, evCrash, evRestart, evCompact), Share: pick(12, 100)})
+	// ---- B9: snapshots and log compaction on every member, stale snapshots.
+	// The alphabet: compact(n) on leaders and followers (application snapshot at the applied
+	// index + Storage.Compact, twice per run, so that a follower can install a snapshot, move
+	// on and compact again), crash/restart (the cheapest way to make a follower lag: free at
+	// quiescence; restart from a compacted storage comes with it), a leader heartbeat tick
+	// (how a leader finds out that a follower it stopped probing is behind and falls back to
+	// MsgSnap), a proposal (so that the group moves past a snapshot that is still in the
+	// network). Deviations: any in-flight message - MsgSnap like every other type - is
+	// delayed, or duplicated with the copy delayed, for an arbitrary time (released at any
+	// later quiescent point); thorough adds loss, plain duplication, reordering and untimely
+	// campaign/propose/crash/restart. The smallest run in which a snapshot reaches a follower
+	// that has meanwhile compacted beyond it (crash(3) campaign(1) .. compact(1) restart(3)
+	// heartbeat(1) .. MsgSnap(4) duplicated+delayed .. propose .. compact(3) release ..) has
+	// one deviation, one proposal, two compactions, one crash and one heartbeat: these are the
+	// quick budgets. Coverage counters: compactions, compactions_on_non_leaders,
+	// msgsnap_deliveries, stale_msgsnap_* (see flagNames).
+	snapKinds := kinds(evCampaign, evPropose, evHeartbeat, evCrash, evRestart, evCompact)
+	add(&Box{ID: "B9", Mode: "B", What: "snapshots and compaction on leaders and followers; MsgSnap (and every other message) delayed or duplicated-and-delayed past later proposals, compactions and restarts of the receiver",
+		Cfg: all3, Bud: Budget{MaxTerm: 2, Proposals: 1, Dups: 1, Delays: 1, Crashes: 1, Heartbeats: 1, Compacts: 2},
+		Depth: 400, MaxDev: 1, Kinds: snapKinds, Devs: kinds(evDelay, evDupDelay), LeaderPropose: true, Share: pick(30, 60)})
+	if thorough {
+		add(&Box{ID: "B9b", Mode: "B", What: "as B9 with two proposals (snapshot, progress, compaction, more progress)",
+			Cfg: all3, Bud: Budget{MaxTerm: 2, Proposals: 2, Dups: 1, Delays: 1, Crashes: 1, Heartbeats: 1, Compacts: 2},
+			Depth: 400, MaxDev: 1, Kinds: snapKinds, Devs: kinds(evDelay, evDupDelay), LeaderPropose: true, Share: 110})
+		add(&Box{ID: "B9c", Mode: "B", What: "as B9 with the full deviation alphabet (loss, duplication, reordering, delay, untimely campaign/propose/crash/restart)",
+			Cfg: all3, Bud: Budget{MaxTerm: 2, Proposals: 1, Drops: 9, Dups: 9, Delays: 1, Crashes: 1, Heartbeats: 1, Compacts: 2},
+			Depth: 400, MaxDev: 1, Kinds: snapKinds, LeaderPropose: true, Share: 110})
+	}
 	add(&Box{ID: "B4", Mode: "B", What: "membership changes: add node 4 as voter or as learner then promote, remove node 3 (also while it leads), joint consensus with automatic and explicit leave; two changes per run",
 		Cfg: cfgPlain(3, true), Bud: Budget{MaxTerm: 3, Drops: 9, Dups: 9, ConfChanges: 2},
 		Depth: 400, MaxDev: pick(1, 2), Kinds: kinds(evCampaign, evConf), Share: pick(10, 95)})
